@@ -122,7 +122,7 @@ let () =
       let s = copy_into (fc = "1") (inn = "1") (pairs pushed) (pairs layers) in
       let names = List.sort compare (List.map (fun (nm, d) -> Printf.sprintf "%s:%d" (hex_of_str nm) (int_of_nat d)) s.s_names) in
       Printf.printf "%s NAMES %s\n" id (String.concat "," names)
-    | id :: "U" :: umask :: preserve :: ck :: dok :: sok :: pre :: toks ->
+    | id :: (("U" | "UU") as k) :: umask :: preserve :: ck :: dok :: sok :: pre :: toks ->
       let (t, _) = parse_tree toks in
       let blob = [n_of_int 0] and tarb = [n_of_int 1] in
       let h s = if s = blob then 10 else 20 in
@@ -132,6 +132,13 @@ let () =
                 d_checksum = (match ck with "1" -> Some 20 | "2" -> Some 21 | _ -> None) } in
       let r = unpack h (fun a b -> a = b) (fun _ -> Some (tar_entries (comps pre) false t)) (fun _ -> Some tarb)
                 (n_of_int (int_of_string umask)) (preserve = "1") d blob in
+      (* UU: pushed by an unprivileged owner -- the extraction inside must also pass the permission check *)
+      let r = match r with
+        | Ok f when k = "UU" ->
+          (match extract_p false (comps pre) (n_of_int (int_of_string umask)) (preserve = "1") (tar_entries (comps pre) false t) with
+           | Ok _ -> Ok f
+           | Err e -> Err e)
+        | _ -> r in
       (match r with
        | Ok _ -> Printf.printf "%s OK\n" id
        | Err (XAbsLink | XWriteThrough) -> Printf.printf "%s UNJUDGED\n" id
